@@ -538,18 +538,65 @@ static std::string ext_once(uint64_t p, uint64_t e, const std::string& op, uint6
     if (op != "iter") o << " | " << g.seed();
     return o.str();
 }
-// gfqx <w> <p> <e> <seed> <n>     GFqExtFast<int32_t> (w=32) / GFqExt<int64_t> (w=64) ::random(g, r): exponents, then "| state"
-template <class FX> static std::string gfqx_once(uint64_t p, uint64_t e, uint64_t seed, int n) {
+// gfqx <w> <p> <e> <seed> <n>     GFqExtFast<int32_t> (w=32) / GFqExt<int64_t> (w=64) ::random(g, r)
+//   prints  "q BITS pceil degree p tablesize noncanonical-table-entries MODOUT | x:exponent:quot ... | state"
+//   (x = the generator value, quot = (uint64_t)(double(d) / double(p)) for d = x % MODOUT: the floating-point quotient init(double) works with)
+// gfqxchk <w> <p> <e> <ih,il>...   add(_high2log[ih], _low2log[il]) for indices computed by the model ("OOB" outside the tables)
+template <class FX> struct GfqxOpen : FX {
+    typedef typename FX::Residu_t R;
+    GfqxOpen(R p, R e) : FX(p, e) {}
+    uint64_t bits_() const { return (uint64_t) this->_BITS; }
+    uint64_t pceil_() const { return (uint64_t) this->_pceil; }
+    uint64_t degree_() const { return (uint64_t) this->_degree; }
+    uint64_t modout_() const { return (uint64_t) this->_MODOUT; }
+    double dchar_() const { return this->_dcharacteristic; }
+    size_t tabsize_() const { return this->_low2log.size() == this->_high2log.size() ? this->_low2log.size() : 0; }
+    size_t noncanon_() const {
+        size_t bad = 0; uint64_t q = (uint64_t) this->cardinality();
+        for (size_t i = 0; i < this->_low2log.size(); ++i) if ((uint64_t) this->_low2log[i] >= q) ++bad;
+        for (size_t i = 0; i < this->_high2log.size(); ++i) if ((uint64_t) this->_high2log[i] >= q) ++bad;
+        return bad;
+    }
+    bool at(size_t ih, size_t il, typename FX::Element& r) const {
+        if (ih >= this->_high2log.size() || il >= this->_low2log.size()) return false;
+        typename FX::Element a = (typename FX::Element) this->_high2log[ih], b = (typename FX::Element) this->_low2log[il];
+        this->add(r, a, b); return true;
+    }
+};
+template <class FX> static GfqxOpen<FX>& gfqx_field(uint64_t p, uint64_t e) {
     // one field object per (p, e): the table fields choose their irreducible polynomial when they are built
-    static std::map<std::pair<uint64_t, uint64_t>, std::unique_ptr<FX> > cache;
-    std::unique_ptr<FX>& slot = cache[std::make_pair(p, e)];
-    if (!slot) slot.reset(new FX((typename FX::Residu_t) p, (typename FX::Residu_t) e));
-    const FX& F = *slot;
+    static std::map<std::pair<uint64_t, uint64_t>, std::unique_ptr<GfqxOpen<FX> > > cache;
+    std::unique_ptr<GfqxOpen<FX> >& slot = cache[std::make_pair(p, e)];
+    if (!slot) slot.reset(new GfqxOpen<FX>((typename FX::Residu_t) p, (typename FX::Residu_t) e));
+    return *slot;
+}
+template <class FX> static std::string gfqx_once(uint64_t p, uint64_t e, uint64_t seed, int n) {
+    const GfqxOpen<FX>& F = gfqx_field<FX>(p, e);
     GivRandom g(seed);
     std::ostringstream o;
-    o << (unsigned long long) F.cardinality();
-    for (int i = 0; i < n; ++i) { typename FX::Element r = 0; F.random(g, r); o << " " << (long long) r; }
+    o << (unsigned long long) F.cardinality() << " " << F.bits_() << " " << F.pceil_() << " " << F.degree_() << " " << (unsigned long long) F.characteristic()
+      << " " << F.tabsize_() << " " << F.noncanon_() << " " << F.modout_() << " |";
+    for (int i = 0; i < n; ++i) {
+        GivRandom h(g);                 // same state: the value the draw is about to consume
+        uint64_t x = h();
+        typename FX::Element r = (i % 2) ? (typename FX::Element) -1 : std::numeric_limits<typename FX::Element>::max();     // destination not fresh
+        F.random(g, r);
+        uint64_t d = (uint64_t) ((typename FX::Residu_t) x % (typename FX::Residu_t) F.modout_());
+        uint64_t quot = static_cast<uint64_t>(static_cast<double>(d) / F.dchar_());
+        o << " " << x << ":" << (long long) r << ":" << quot;
+    }
     o << " | " << g.seed();
+    return o.str();
+}
+template <class FX> static std::string gfqxchk_once(uint64_t p, uint64_t e, const Args& idx) {
+    const GfqxOpen<FX>& F = gfqx_field<FX>(p, e);
+    std::ostringstream o;
+    for (size_t k = 0; k < idx.size(); ++k) {
+        size_t c = idx[k].find(',');
+        typename FX::Element r = 0;
+        if (c == std::string::npos || !F.at((size_t) pu64(idx[k].substr(0, c)), (size_t) pu64(idx[k].substr(c + 1)), r)) o << (k ? " " : "") << "OOB";
+        else o << (k ? " " : "") << (long long) r;
+    }
     return o.str();
 }
 struct GfqxCtx { int w; uint64_t p, e, seed; int n; };
@@ -864,6 +911,11 @@ static std::string dispatch(const std::string& kind, const Args& a) {
         GfqxCtx c; c.w = atoi(a[0].c_str()); c.p = pu64(a[1]); c.e = pu64(a[2]); c.seed = pu64(a[3]); c.n = atoi(a[4].c_str());
         return twice(gfqx_f, &c);
     }
+    if (kind == "gfqxchk") {
+        if (a.size() < 3) return "BAD-LINE";
+        Args idx(a.begin() + 3, a.end());
+        return atoi(a[0].c_str()) == 32 ? gfqxchk_once<GFqExtFast<int32_t> >(pu64(a[1]), pu64(a[2]), idx) : gfqxchk_once<GFqExt<int64_t> >(pu64(a[1]), pu64(a[2]), idx);
+    }
     if (kind == "ext") {
         if (a.size() < 5) return "BAD-LINE";
         ExtCtx c; c.p = pu64(a[0]); c.e = pu64(a[1]); c.op = a[2]; c.seed = pu64(a[3]); c.n = atoi(a[4].c_str()); c.s = a.size() > 5 ? pi64(a[5]) : 0;
@@ -924,7 +976,7 @@ int main(int argc, char** argv) {
         if (!is) continue;
         Args a; while (is >> t) a.push_back(t);
         if (sigsetjmp(jb, 1)) { std::cout << "TIMEOUT" << std::endl; continue; }
-        arm((kind == "lcg" || kind == "ext" || kind == "gfqx") ? limit_ms + 5000 : limit_ms);     // GivRandom draws have no loop; long sequences need time to print
+        arm((kind == "lcg" || kind == "ext" || kind == "gfqx" || kind == "gfqxchk") ? limit_ms + 5000 : limit_ms);     // GivRandom draws have no loop; long sequences need time to print
         std::string out = dispatch(kind, a);
         arm(0);
         std::cout << out << "\n";
